@@ -96,8 +96,15 @@ CAUSES = [
      "PPC cmpwi / cmplwi (CR field 1..7): eq is computed with the gt formula, and the three flags are assigned the 4-bit constants "
      "0b0100 / 0b0010 / 0b0001 although the scalars crN-lt/gt/eq are 1 bit wide: components crN-lt, crN-gt, crN-eq (value and width)",
      "Power ISA Book I 3.3.10 cmpi/cmpli: 'c <- 0b100 | 0b010 | 0b001 for a < b, a > b, a = b; CR[4xBF..4xBF+3] <- c || XER[SO]'",
-     "a == 'ppc' and mn in ('cmpwi', 'cmplwi')",
+     "a == 'ppc' and mn in ('cmpwi', 'cmplwi') and f[0]['crf'] != 0",
      "{'cr%d%s' % (f[0]['crf'], s) for s in ('lt', 'gt', 'eq')}"),
+    ("C02-ppc-compare-cr0-operands",
+     "PPC cmpwi / cmplwi on CR field 0 (capstone prints two operands: 'cmpwi r7, 0x13'): the lifter still reads operand 0 as the CR "
+     "field and operand 1 as the register, so the word is either refused or - when the immediate happens to be the number of a "
+     "known register - lifted to IL that reads unrelated scalars: components outcome (ExecutorScalar) / cr0-lt, cr0-gt, cr0-eq not written",
+     "Power ISA Book I 3.3.10 cmpi/cmpli with BF = 0 set CR0",
+     "a == 'ppc' and mn in ('cmpwi', 'cmplwi') and f[0]['crf'] == 0",
+     "{'outcome', 'cr0lt', 'cr0gt', 'cr0eq'}"),
     ("C02-ppc-mtlr-mtctr",
      "PPC mtlr rS is dispatched to the mflr semantics (rS <- LR) and mtctr rS assigns the constant 0 to rS (operand 1 of a one-operand "
      "instruction read as an immediate): components lr / ctr (not written) and rS (overwritten)",
